@@ -60,6 +60,40 @@ Fixpoint http_retry (script : list attempt_result) (retries_left : nat) (idx : n
            end
   end.
 
+(* the same policy with a configured delay (WithDelay base) or backoff (WithBackoff base maxd, factor 2) besides the
+   delay function: getDelay takes the delay function's value whenever it is not -1 -- unclamped by the backoff's
+   maximum -- and the fixed / backed-off delay otherwise (retryexecutor.go getDelay, getFixedOrRandomDelay: the backoff
+   advances from the last fixed delay used, starting over at base when none was used yet or on the first retry) *)
+Definition fixed_delay (base maxd last : Z) (retries : nat) : Z :=
+  if base =? 0 then 0
+  else if negb (last =? 0) && negb (Nat.eqb retries 0) && negb (maxd =? 0) then Z.min (last * 2) maxd
+  else base.
+
+Fixpoint http_retry_b (base maxd last : Z) (script : list attempt_result) (retries_left : nat) (idx : nat) : option nat * nat * list Z :=
+  match script with
+  | [] => (None, idx, [])
+  | a :: rest =>
+      if negb (http_retryable a) then (Some idx, S idx, [])
+      else if http_abort a then
+        match retries_left with O => (None, S idx, []) | S _ => (Some idx, S idx, []) end
+      else match retries_left with
+           | O => (None, S idx, [])
+           | S n =>
+               let d := http_delay a in
+               let f := fixed_delay base maxd last idx in
+               let '(r, k, ds) := http_retry_b base maxd (if d =? -1 then (if base =? 0 then last else f) else last) rest n (S idx) in
+               (r, k, (if d =? -1 then f else Z.max 0 d) :: ds)
+           end
+  end.
+
+(* the wait the property demands before the retry that follows attempt a: a Retry-After given in seconds *)
+Definition retry_after_floor (a : attempt_result) : Z :=
+  match a with
+  | AResp r => if (rs_status r =? 429) || (rs_status r =? 503)
+               then match rs_retry_after r with Some s => Z.max 0 (s * 1000000000) | None => 0 end else 0
+  | AErr _ => 0
+  end.
+
 (* gRPC: codes.Unavailable = 14, DeadlineExceeded = 4, ResourceExhausted = 8; a non-status error is not retried *)
 Definition grpc_retryable (code : option Z) : bool :=
   match code with Some c => (c =? 14) || (c =? 4) || (c =? 8) | None => false end.
